@@ -203,6 +203,8 @@ theorem atomic_inner_end (e : Env) (a x : Pat) (st : St) :
 /-- the rewrite relation of `eliminateEndingBacktracking` in evaluation direction `rtl` -/
 inductive EndAtomic (e : Env) : Bool → Pat → Pat → Prop
   | refl (rtl : Bool) (p : Pat) : EndAtomic e rtl p p
+  /-- a replacement with the same ordered successes (a lazy repeater `x{n}?` written greedy, `x{0,0}` as Empty) -/
+  | ofEq {rtl : Bool} {p q : Pat} : (∀ st, m e p rtl st = m e q rtl st) → EndAtomic e rtl p q
   | trans {rtl : Bool} {p q r : Pat} : EndAtomic e rtl p q → EndAtomic e rtl q r → EndAtomic e rtl p r
   /-- `makeLoopAtomic` on a greedy loop; wrapping an alternation, conditional or loop in Atomic -/
   | wrap (rtl : Bool) (p : Pat) : EndAtomic e rtl p (.atomic p)
@@ -239,6 +241,7 @@ inductive EndAtomic (e : Env) : Bool → Pat → Pat → Prop
 theorem end_atomic_head (e : Env) {rtl : Bool} {p q : Pat} (h : EndAtomic e rtl p q) : HeadEq e rtl p q := by
   induction h with
   | refl rtl p => exact HeadEq.refl e rtl p
+  | ofEq h => exact HeadEq.of_eq h
   | trans _ _ ih1 ih2 => exact ih1.trans ih2
   | wrap rtl p => exact headEq_atomic e rtl p
   | lazyMin rtl lo hi a h => exact headEq_lazy_min e rtl lo hi a h
@@ -924,5 +927,104 @@ example : certTop o0
 example : find (env [120, 97, 97, 98]) (.seq (star 97) (lit 98)) false 0
     = find (env [120, 97, 97, 98]) (.seq (.atomic (star 97)) (lit 98)) false 0 :=
   auto_atomic_certified (o0_sound _) (by decide) 0
+
+/-! ## 9. `eliminateEndingBacktracking` as a function -/
+
+theorem endAtomic_wrapIf (e : Env) (c : Bool) (orig : Pat) {p q : Pat} (h : EndAtomic e false p q) :
+    EndAtomic e false p (wrapIf c orig q) := by
+  unfold wrapIf
+  split
+  · exact .trans h (.wrap _ _)
+  · exact h
+
+/-- **`endAtomic_sound`** — what `eliminateEndingBacktracking` does to a left-to-right tree
+    (`Model/AutoAtomic.lean`: `endAtomic`, a function mirroring the Go switch) is an instance of the
+    rewrite relation `EndAtomic`, whatever the parent is: every trailing node it makes atomic, cuts to
+    its minimum or wraps is in tail position. -/
+theorem endAtomic_sound (e : Env) : ∀ (p : Pat) (pa : Bool), EndAtomic e false p (endAtomic pa p) := by
+  intro p
+  induction p with
+  | quant lzy lo hi x ih =>
+    intro pa
+    cases x with
+    | chr q =>
+      simp only [endAtomic]
+      cases lzy with
+      | false => exact .wrap _ _
+      | true =>
+        simp only [if_true]
+        by_cases h1 : hiAtLeast hi lo = true
+        · rw [if_pos h1]
+          have hmin : EndAtomic e false (.quant true lo hi (.chr q)) (.quant true lo (some lo) (.chr q)) :=
+            .lazyMin _ lo hi _ (canGo_of_hiAtLeast h1)
+          by_cases h0 : lo = 0
+          · subst h0
+            rw [if_pos rfl]
+            exact .trans hmin (.ofEq (quant_zero_zero e true _ false))
+          · rw [if_neg h0]
+            exact .trans hmin (.trans (.ofEq (repeater_lazy_eq_greedy e q lo)) (.wrap _ _))
+        · rw [if_neg h1]; exact .refl _ _
+    | _ =>
+      simp only [endAtomic]
+      by_cases hl : lzy = true ∧ hiAtLeast hi lo = true
+      · obtain ⟨rfl, h1⟩ := hl
+        simp only [h1, and_self, if_true]
+        split
+        · rename_i h2
+          obtain rfl : lo = 1 := by simpa using h2
+          exact .trans (.lazyMin _ 1 hi _ (canGo_of_hiAtLeast h1)) (.optional true 1 (ih false))
+        · exact .lazyMin _ lo hi _ (canGo_of_hiAtLeast h1)
+      · simp only [hl, if_false]
+        split
+        · rename_i h2
+          rw [h2]
+          exact .optional lzy lo (ih false)
+        · exact .refl _ _
+  | atomic x ih =>
+    intro pa
+    simp only [endAtomic]
+    split
+    · exact .refl _ _
+    · exact .atomic (ih true)
+  | look bh ng x ih =>
+    intro pa
+    cases bh with
+    | false => simp only [endAtomic]; exact .look false ng (ih false)
+    | true => simp only [endAtomic]; exact .refl _ _
+  | seq a b _ ihb =>
+    intro pa
+    simp only [endAtomic]
+    split
+    · exact .seqLtr a (ihb pa)
+    · exact .seqLtr a (endAtomic_wrapIf e _ _ (ihb false))
+  | cap g a ih =>
+    intro pa
+    simp only [endAtomic]
+    exact .cap g (endAtomic_wrapIf e _ _ (ih false))
+  | alt a b iha ihb => intro pa; simp only [endAtomic]; exact .alt (iha false) (ihb false)
+  | refCond g y n ihy ihn => intro pa; simp only [endAtomic]; exact .refCond g (ihy false) (ihn false)
+  | exprCond c y n _ ihy ihn =>
+    intro pa; simp only [endAtomic]; exact .exprCond (.refl _ c) (ihy false) (ihn false)
+  | empty => intro pa; exact .refl _ _
+  | nothing => intro pa; exact .refl _ _
+  | chr q => intro pa; exact .refl _ _
+  | anchor a => intro pa; exact .refl _ _
+  | ref g ci => intro pa; exact .refl _ _
+
+/-- … hence the whole pattern keeps its `find` result (`finalOptimize`:
+    `rootNode.eliminateEndingBacktracking()` — at the root the implicit capture has no parent, so a
+    top-level alternation or loop is wrapped too) -/
+theorem endAtomicTop_find (e : Env) (p : Pat) (start : Nat) :
+    find e p false start = find e (endAtomicTop p) false start :=
+  end_atomic_find e (endAtomic_wrapIf e true p (endAtomic_sound e p false)) start
+
+/-- `x(?:ab*|c+?)` ⇒ `x(?>a(?>b*)|c)`; `ab*?` ⇒ `a`+Empty; `a|b+` at the root is wrapped -/
+example : endAtomicTop (.seq (lit 120) (.alt (.seq (lit 97) (star 98)) (.quant true 1 none (lit 99))))
+    = .seq (lit 120) (.atomic (.alt (.seq (lit 97) (.atomic (star 98))) (.atomic (.quant false 1 (some 1) (lit 99))))) := by decide
+example : endAtomicTop (.seq (lit 97) (lazyStar 98)) = .seq (lit 97) .empty := by decide
+example : endAtomicTop (.alt (lit 97) (plus 98)) = .atomic (.alt (lit 97) (.atomic (plus 98))) := by decide
+/-- inside an Atomic group the last alternation is not wrapped again -/
+example : endAtomicTop (.atomic (.seq (lit 120) (.alt (lit 97) (star 98))))
+    = .atomic (.seq (lit 120) (.alt (lit 97) (.atomic (star 98)))) := by decide
 
 end RegexVerif.Props.C05
